@@ -13,14 +13,19 @@ BY = {"ord": "::dxrt::by_cmp", "partial_ord": "::dxrt::by_pcmp", "eq": "::dxrt::
 PLACEMENTS = ["named", "tuple", "enum"]
 
 
-FIELD_TYPES = ["()", "::core::marker::PhantomData<u8>", "(::dxrt::V,)", "[u8; 0]", "&'static str", "::core::option::Option<::dxrt::V>"]
+FIELD_TYPES = ["()", "::core::marker::PhantomData<u8>", "(::dxrt::V,)", "[u8; 0]", "&'static str", "::core::option::Option<::dxrt::V>",
+               # types that mention a parameter of the item (they get a where-predicate; the verdict is the same)
+               "T", "::std::vec::Vec<T>", "[::dxrt::V; N]", "::core::option::Option<(T, [u8; N])>"]
 
 
 def item_for(combo, placement, name="Ty", fty=None):
     attrs = " ".join(M.render_attrs(combo, KEY, BY))
     if fty is not None:
         # the attributed field has another type (the verdict does not depend on it); one shape is enough
-        return f"struct {name} {{ f0: ::dxrt::V, {attrs} f1: {fty} }}" if placement != "enum" else f"enum {name} {{ V0, V1({attrs} {fty}, ::dxrt::V) }}"
+        import re as _re
+        ps = (["T"] if _re.search(r"\bT\b", fty) else []) + (["const N: usize"] if _re.search(r"\bN\b", fty) else [])
+        g = ("<" + ", ".join(ps) + ">") if ps else ""
+        return f"struct {name}{g} {{ f0: ::dxrt::V, {attrs} f1: {fty} }}" if placement != "enum" else f"enum {name}{g} {{ V0, V1({attrs} {fty}, ::dxrt::V) }}"
     # the attributed field is the first, the middle or the last one, depending on the combination
     pos = (hash(combo) & 0xFFFF) % 3 if False else sum(len(o) for o in combo) % 3
     a = [attrs if i == pos else "" for i in range(3)]
